@@ -808,7 +808,7 @@ theorem fieldIndexGo_ambiguous (view : Option String) (name : String) (fs : List
 /-- an unqualified reference stops at the first join column of that name when nothing before it matches -/
 theorem fieldIndexGo_join_wins (name : String) (pre : List HField) (f : HField) (post : List HField) (i : Nat)
     (idx : Option Nat) (hpre : ∀ g, g ∈ pre → fieldMatches none name g = false)
-    (hf : eqFold f.name name = true) (hj : f.isJoin = true) :
+    (hf : colEq f name = true) (hj : f.isJoin = true) :
     fieldIndexGo none name (pre ++ f :: post) i idx = .ok (i + pre.length) := by
   induction pre generalizing i with
   | nil => simp [fieldIndexGo, fieldMatches, joinWins, hf, hj]
